@@ -532,15 +532,26 @@ func runC19(ctx *Ctx, idx int) {
 	kinds := []string{"i32", "none", "i64", "u16", "i32"}
 	kind := kinds[r.Intn(len(kinds))]
 	vals := genVals(r, kind, n, r.Intn(5))
-	if r.Chance(1, 5) {
-		// newline-free strings
+	if r.Chance(1, 4) {
+		// newline-free strings; every other time through the user-defined
+		// RawStr encoder (no length prefix, empty strings are absent leaves)
 		vals = &ValSpec{Kind: "str16", Strs: make([]string, n)}
+		if r.Bool() {
+			vals.Kind = "rawstr"
+		}
 		cur := ""
 		for i := range vals.Strs {
 			if i == 0 || r.Chance(2, 3) {
 				cur = fmt.Sprintf("v%x", r.Intn(1<<20))
+				if vals.Kind == "rawstr" && r.Chance(1, 4) {
+					cur = ""
+				}
 			}
 			vals.Strs[i] = cur
+		}
+		if vals.Kind == "rawstr" && n > 0 {
+			vals.Strs[r.Intn(n)] = "nonempty" // keep the leaf array in existence
+			ctx.Count("valkind:rawstr", 1)
 		}
 	}
 	lc := &LCase{Family: ks.Family, Keys: keys, Vals: vals}
@@ -602,6 +613,26 @@ func runC19(ctx *Ctx, idx int) {
 			viol("loaded-renders-differently", "loaded", map[string]interface{}{"fresh_len": len(s1), "loaded_len": len(s2)})
 		}
 		ctx.Count("fresh_equals_loaded", 1)
+		// a by-value copy is a snapshot: it renders the same after the original
+		// has been reloaded and reset
+		if t%2 == 1 {
+			var s4 string
+			pv, stack = try(func() {
+				snap := *ld
+				other, _ := trie.NewSlimTrie(vals.Encoder(), []string{"p", "q", "r"}, nil)
+				ob, _ := other.Marshal()
+				ld.Unmarshal(ob)
+				ld.Reset()
+				s4 = snap.String()
+			})
+			if pv != nil {
+				viol("panic", "snapshot-copy", map[string]interface{}{"panic": fmt.Sprint(pv), "stack": stack})
+			} else if s4 != s1 {
+				viol("snapshot-copy-renders-differently", "snapshot-copy", map[string]interface{}{"fresh_len": len(s1), "copy_len": len(s4), "copy_head": truncate(s4, 200)})
+			} else {
+				ctx.Count("snapshot_copy_renders_equal", 1)
+			}
+		}
 		// the same stream loaded into an instance that holds another trie and
 		// has already been rendered
 		if t%2 == 0 {
@@ -697,7 +728,7 @@ func init() {
 			if tier == "quick" && sizes < 3 {
 				missed = append(missed, "at least 3 short-table sizes")
 			}
-			for _, g := range []string{"shape:with_257bit_nodes", "shape:with_straddling_short", "fresh_equals_loaded", "fresh_equals_reloaded_into_used_instance"} {
+			for _, g := range []string{"shape:with_257bit_nodes", "shape:with_straddling_short", "fresh_equals_loaded", "fresh_equals_reloaded_into_used_instance", "snapshot_copy_renders_equal", "valkind:rawstr"} {
 				if m.C(g) == 0 {
 					missed = append(missed, g)
 				}
